@@ -1219,6 +1219,7 @@ func (e *asEngine) Generate(c *Ctx) {
 	e.supervisionMatrix(c)
 	e.escalationMatrix(c)
 	e.stashScenarios(c)
+	e.killVsDirective(c)
 	e.eventStreamScenarios(c)
 	e.schedulerScenarios(c)
 	for i := 0; i < n; i++ {
@@ -1544,6 +1545,65 @@ func (e *asEngine) stashScenarios(c *Ctx) {
 					c.Do("check")
 					c.R.Nontrivial()
 					c.R.Hit(fmt.Sprintf("stash:dec%s:hooks%d", dec, hooks))
+				}
+			}
+		}
+	}
+}
+
+// killVsDirective: a supervisor is killed while the failure report of its child is still waiting in its mailbox,
+// and the failing child has a child of its own, so that it does not finish stopping (or restarting) within one
+// handler run: the Kill and the supervisor's directive overlap on it, in both orders (C06: a killed actor and all
+// its descendants terminate; C09: nobody is left half-stopped; a kill wins over a restart in progress).
+func (e *asEngine) killVsDirective(c *Ctx) {
+	reps := 1
+	if c.Thorough() {
+		reps = 6
+	}
+	for rep := 0; rep < reps; rep++ {
+		for _, dec := range []string{"1", "2", "3", "4", "5", "6"} {
+			for _, order := range []string{"kill-first", "directive-first"} {
+				for _, poison := range []string{"0", "1"} {
+					for _, hooks := range []int{0, 2, 4} {
+						if hooks != 0 && dec != "1" && dec != "2" {
+							continue
+						}
+						kindP := 1 + c.Rng.Intn(2)
+						c.Case("reset 1")
+						c.Do(fmt.Sprintf("script 1 launch:spawn.c.2.0.-.%d,spawn.s.3.0.-.0;u1:tell.parent.1", hooks))
+						c.Do("script 2 launch:spawn.g.3.0.-.0;u2:panic;u1:tell.parent.1")
+						c.Do("script 3 u1:tell.parent.1")
+						c.Do(fmt.Sprintf("spawn p 1 %d %s 0", kindP, dec)) // ctx 1; its children: c = 2, s = 3; g = 4
+						c.Do("deliver 1")
+						c.Do("deliver 2")
+						c.Do("deliver 3")
+						c.Do("deliver 4")
+						if order == "kill-first" {
+							c.Do("kill p:/p " + poison)
+							c.Do("tell p:/p/c 2")
+							c.Do("deliver 2") // the child fails: its report queues behind the kill (system kill) or before it (poison)
+						} else {
+							c.Do("tell p:/p/c 2")
+							c.Do("deliver 2")
+							c.Do("kill p:/p " + poison)
+						}
+						c.Do("tell p:/p/c 1") // mail queued behind the failure
+						// the supervisor handles both, then the child handles whatever reached it, before its own child moves
+						c.Do("deliver 1")
+						c.Do("deliver 1")
+						c.Do("deliver 2")
+						c.Do("deliver 2")
+						c.Do("deliver 2")
+						e.drain(c, 400)
+						for _, p := range []string{"/p", "/p/c", "/p/s", "/p/c/g"} {
+							c.Do("tell p:" + p + " 1")
+						}
+						e.drain(c, 400)
+						c.Do("check")
+						c.R.Nontrivial()
+						c.R.Hit("killvs:" + order)
+						c.R.Hit("killvs:dec" + dec + ":" + order)
+					}
 				}
 			}
 		}
